@@ -320,6 +320,26 @@ let () = register "rewrite" (fun args ->
      | _ -> "FAIL read")
   | _ -> "BADARGS")
 
+(* cli <version> <showw> <help> <nthreads> <format hex|NULL> <type hex|NULL> <gpo bits> <gpe bits> <tgpe bits> <write_ok 0|1> <path|STDIN-EMPTY|MISSING:path>...
+   the exit status main() is modelled to produce; inputs that do not exist make their read stage fail *)
+let () = register "cli" (fun args ->
+  match args with
+  | v :: w :: h :: nt :: fmt :: ty :: g :: e :: t :: wok :: files ->
+    let opt x = if x = "NULL" then None else Some (if x = "-" then [] else bytes_of_hexstr x) in
+    let a = { a_version = (v = "1"); a_showw = (w = "1"); a_help = (h = "1"); a_nthreads = z_of_int (int_of_string nt);
+              a_ninputs = nat_of_int (List.length files); a_format = opt fmt; a_type = opt ty } in
+    let missing = List.exists (fun f -> String.length f > 8 && String.sub f 0 8 = "MISSING:") files in
+    (* run_kalign reads in order and stops at the first failure: inputs before a missing file are read *)
+    let rec upto = function [] -> [] | f :: r -> if String.length f > 8 && String.sub f 0 8 = "MISSING:" then [] else f :: upto r in
+    let contents = List.map (fun f -> if f = "STDIN-EMPTY" then [] else read_file_bytes f) (upto files) in
+    let tyc = match set_aln_type (opt ty) with Some x -> x | None -> z_of_int 5 in
+    let (rd, rn) = predicted_run_stage contents tyc (n_of_int (int_of_string g)) (n_of_int (int_of_string e)) (n_of_int (int_of_string t)) in
+    let rd = if missing then SFail else rd in
+    let wr = if wok = "1" then SOk else SFail in
+    let r = cli_main a [rd] rn wr in
+    Printf.sprintf "exit=%d %s" (int_of_z (exit_code r)) (match r with Exit0_info -> "info" | Exit1 -> "failure" | Exit0_written -> "written")
+  | _ -> "BADARGS")
+
 let main () =
   try
     while true do
